@@ -19,13 +19,73 @@ def canon(p):
     return "+".join("%d*%s" % (v, ".".join(k)) for k, v in sorted(p.terms.items())) or "0"
 
 
-class Dual:
-    __slots__ = ("rep", "num", "den")
+ONE = Poly.of(1)
 
-    def __init__(self, rep, num, den=None):
+
+def _is_one(p):
+    return p.terms == {(): 1}
+
+
+def _expand(fac):
+    out = ONE
+    for f, e in fac.items():
+        for _ in range(e):
+            out = out * f
+    return out
+
+
+def _minus(a, b):
+    """multiset difference a - b of factor dictionaries"""
+    out = {}
+    for f, e in a.items():
+        r = e - b.get(f, 0)
+        if r > 0:
+            out[f] = r
+    return out
+
+
+def _lcm(a, b):
+    out = dict(a)
+    for f, e in b.items():
+        if out.get(f, 0) < e:
+            out[f] = e
+    return out
+
+
+def _plus(a, b):
+    out = dict(a)
+    for f, e in b.items():
+        out[f] = out.get(f, 0) + e
+    return out
+
+
+class Dual:
+    """num / prod(f^e): the denominator is kept as a multiset of polynomial factors (never
+    expanded), so the common factors that a division cancels (Thomas recursion, weighted means)
+    are cancelled syntactically; identity is still decided by exact cross-multiplication"""
+    __slots__ = ("rep", "num", "dfac", "_den")
+
+    def __init__(self, rep, num, den=None, dfac=None):
         self.rep = float(rep)
         self.num = Poly.of(num)
-        self.den = Poly.of(den) if den is not None else Poly.of(1)
+        self._den = None
+        if dfac is not None:
+            self.dfac = dfac
+        else:
+            d = Poly.of(den) if den is not None else ONE
+            self.dfac = {} if _is_one(d) else {d: 1}
+        if not self.num.terms:
+            self.dfac = {}
+        elif self.dfac.get(self.num):
+            # num equals one of the factors: cancel it
+            self.dfac = _minus(self.dfac, {self.num: 1})
+            self.num = ONE
+
+    @property
+    def den(self):
+        if self._den is None:
+            self._den = _expand(self.dfac)
+        return self._den
 
     @staticmethod
     def sym(name, rep):
@@ -42,7 +102,11 @@ class Dual:
         if isinstance(x, float):
             if float(x) == int(x) and abs(x) < 1e15:
                 return Dual(x, Poly.of(int(x)))
-            # a non-integer literal: keep it as its own symbol (exact)
+            n, d = x.as_integer_ratio()
+            if d <= (1 << 20) and abs(n) < (1 << 40):
+                # a dyadic literal (0.5, 0.25, 1.5, ...) is the exact rational n / d
+                return Dual(x, Poly.of(n), Poly.of(d))
+            # any other literal: keep it as its own symbol (exact)
             return Dual(x, Poly.sym("lit(%r)" % x))
         raise AnalysisBroken("ratfun: cannot lift %r" % (x,))
 
@@ -54,7 +118,8 @@ class Dual:
 
     def same(self, o):
         o = Dual.of(o)
-        return (self.num * o.den) == (o.num * self.den)
+        l = _lcm(self.dfac, o.dfac)
+        return (self.num * _expand(_minus(l, self.dfac))) == (o.num * _expand(_minus(l, o.dfac)))
 
     def __repr__(self):
         return "Dual(%.6g ~ %s)" % (self.rep, self.key()[:160])
@@ -62,23 +127,33 @@ class Dual:
     # arithmetic -----------------------------------------------------------------------------
     def add(self, o, sign=1):
         o = Dual.of(o)
-        if self.den == o.den:
-            return Dual(self.rep + sign * o.rep, self.num + o.num * Poly.of(sign), self.den)
-        return Dual(self.rep + sign * o.rep, self.num * o.den + o.num * self.den * Poly.of(sign),
-                    self.den * o.den)
+        if self.dfac == o.dfac:
+            return Dual(self.rep + sign * o.rep, self.num + o.num * Poly.of(sign), dfac=self.dfac)
+        l = _lcm(self.dfac, o.dfac)
+        return Dual(self.rep + sign * o.rep,
+                    self.num * _expand(_minus(l, self.dfac)) + o.num * _expand(_minus(l, o.dfac)) * Poly.of(sign),
+                    dfac=l)
 
     def mul(self, o):
         o = Dual.of(o)
-        return Dual(self.rep * o.rep, self.num * o.num, self.den * o.den)
+        return Dual(self.rep * o.rep, self.num * o.num, dfac=_plus(self.dfac, o.dfac))
 
     def div(self, o):
         o = Dual.of(o)
         if o.rep == 0:
             raise AnalysisBroken("ratfun: division by a value whose representative is 0")
-        return Dual(self.rep / o.rep, self.num * o.den, self.den * o.num)
+        # (a.num / A) / (o.num / O) = a.num * (O - A) / ((A - O) * o.num)
+        num = self.num * _expand(_minus(o.dfac, self.dfac))
+        dfac = _minus(self.dfac, o.dfac)
+        d = o.num
+        if d.terms == {(): -1}:
+            num = num * Poly.of(-1)
+        elif not _is_one(d):
+            dfac = _plus(dfac, {d: 1})
+        return Dual(self.rep / o.rep, num, dfac=dfac)
 
     def neg(self):
-        return Dual(-self.rep, self.num * Poly.of(-1), self.den)
+        return Dual(-self.rep, self.num * Poly.of(-1), dfac=self.dfac)
 
 
 def upow(x, y):
